@@ -214,12 +214,14 @@ def _case_ids(case):
 
 def _range_sig(case):
     spec = case['spec']
+    if case.get('bad'):
+        return dict(part='range', bad=BAD[case['bad'][0]])
     pf = sorted({s[0] for s in spec})
     rn = sorted({s[2] for s in spec})
     return dict(part='range', form=case['form'],
                 render=rn[0] if len(rn) == 1 else ('mixed' if rn else 'none'),
-                prefixes=len(pf), empty_prefix=('' in pf or '<empty+delimiter>' in pf),
-                bad='no' if not case.get('bad') else BAD[case['bad'][0]], n='0' if not spec else ('1' if len(spec) == 1 else 'many'))
+                empty_prefix=('' in pf or '<empty+delimiter>' in pf),
+                bad='no', n='0' if not spec else ('1' if len(spec) == 1 else 'many'))
 
 
 def _range_eval(case, ctx):
@@ -310,14 +312,14 @@ def _range_run(shard, ctx):
 
 
 # ------------------------------------------------------------------------------ (fields)
-_FIELD = {}
-
-
 def _field_species():
-    if not _FIELD:
-        from pmutt.statmech import StatMech
-        _FIELD['sp'] = [StatMech(name='H2', elements={'H': 2}), StatMech(name='H(S)', elements={'H': 1, 'Pt': 1})]
-    return _FIELD['sp']
+    """Fresh species for every case: phases write themselves into species.phase (and IdealGas drops
+    reactions whose species carry another phase), which is C07's subject, not this one's."""
+    from pmutt.statmech import StatMech
+    sp = [StatMech(name='H2', elements={'H': 2}), StatMech(name='H(S)', elements={'H': 1, 'Pt': 1})]
+    for x in sp:
+        x.phase = None
+    return sp
 
 
 def _field_cases(tier):
@@ -343,7 +345,7 @@ def _field_cases(tier):
 
 def _field_sig(case):
     rn = sorted({s[2] for s in case['spec']})
-    return dict(part='field', where=case['where'], render=rn[0] if rn else 'none',
+    return dict(part='field', field=case['where'], render=rn[0] if rn else 'none',
                 n='0' if not case['spec'] else ('1' if len(case['spec']) == 1 else 'many'))
 
 
@@ -387,7 +389,8 @@ def _field_eval(case, ctx):
             outs.append((_extract(text, 'synthesis_reactions'), 'str', ids[:half]))
             outs.append((_extract(text, 'cleavage_reactions'), 'str', ids[half:]))
         else:
-            y = bep.to_omkm_yaml(act_energy_unit='kcal/mol')
+            from pmutt.omkm.units import Units
+            y = bep.to_omkm_yaml(units=Units())
             outs.append((y.get('synthesis-reactions', []), 'list', ids[:half]))
             outs.append((y.get('cleavage-reactions', []), 'list', ids[half:]))
     ctx.evals()
